@@ -136,7 +136,7 @@ HARNESS_ENV = dict(os.environ,
                    ASAN_OPTIONS="exitcode=99:abort_on_error=0:detect_leaks=0:"
                                 "allocator_may_return_null=1:handle_segv=0:handle_abort=0:"
                                 "handle_sigbus=0:detect_stack_use_after_return=0:"
-                                "max_allocation_size_mb=4096",
+                                "max_allocation_size_mb=20480",
                    UBSAN_OPTIONS="print_stacktrace=0")
 
 
